@@ -109,6 +109,7 @@ def run(ctx):
         parts.append(("chain_%d" % i, cfg("chain", 2, False, "none", ops, ["ChainWellTyped"], "quick" if q else "thorough"),
                       None, None, 4))
     parts.append(("deep", cfg("deep", 1, False, "none", ALLOPS, ["GenWellTyped"]), None, None, 1))
+    parts.append(("nonfinite", cfg("nonfinite", 1, False, "none", ALLOPS, ["GenWellTyped"]), None, None, 1))
     ctx.exhaustive = False
     build = None
     results = []
